@@ -44,8 +44,10 @@ def _desc(d, skip_index):
                  if not (skip_index and k == 'index'))
 
 
-def fingerprint(x, depth=0):
-    """bit-exact fingerprint of data arrays and user-supplied descriptors (library-managed 'index' excluded)"""
+def fingerprint(x, depth=0, index=False):
+    """bit-exact fingerprint of data arrays and user-supplied descriptors (the library-managed 'index' of RDMs objects
+    is excluded unless index=True: constructors add it to fresh objects, but an operation on ANOTHER object must not
+    change it -- it is the default descriptor of bootstrap and crossvalidation)"""
     from rsatoolbox.data.base import DatasetBase
     from rsatoolbox.inference import Result
     from rsatoolbox.model import Model
@@ -53,22 +55,22 @@ def fingerprint(x, depth=0):
     if depth > 6:
         return 'deep'
     if isinstance(x, RDMs):
-        return ('RDMs', _val(x.dissimilarities), _desc(x.descriptors, False), _desc(x.rdm_descriptors, True),
-                _desc(x.pattern_descriptors, True), x.dissimilarity_measure, x.n_rdm, x.n_cond)
+        return ('RDMs', _val(x.dissimilarities), _desc(x.descriptors, False), _desc(x.rdm_descriptors, not index),
+                _desc(x.pattern_descriptors, not index), x.dissimilarity_measure, x.n_rdm, x.n_cond)
     if isinstance(x, DatasetBase):
         t = _desc(getattr(x, 'time_descriptors', {}), False)
         return (type(x).__name__, _val(x.measurements), _desc(x.descriptors, False), _desc(x.obs_descriptors, False),
                 _desc(x.channel_descriptors, False), t)
     if isinstance(x, Model):
-        return (type(x).__name__, x.name, fingerprint(x.rdm_obj, depth + 1) if x.rdm_obj is not None else None,
+        return (type(x).__name__, x.name, fingerprint(x.rdm_obj, depth + 1, index) if x.rdm_obj is not None else None,
                 _val(getattr(x, 'rdm', None)))
     if isinstance(x, Result):
         return ('Result', _val(x.evaluations), _val(x.noise_ceiling), _val(x.variances), x.dof, x.method, x.cv_method,
-                tuple(fingerprint(m, depth + 1) for m in x.models))
+                tuple(fingerprint(m, depth + 1, index) for m in x.models))
     if isinstance(x, (list, tuple)):
-        return (type(x).__name__,) + tuple(fingerprint(v, depth + 1) for v in x)
+        return (type(x).__name__,) + tuple(fingerprint(v, depth + 1, index) for v in x)
     if isinstance(x, dict):
-        return ('dict',) + tuple((str(k), fingerprint(v, depth + 1) if isinstance(v, dict) or hasattr(v, '__dict__')
+        return ('dict',) + tuple((str(k), fingerprint(v, depth + 1, index) if isinstance(v, dict) or hasattr(v, '__dict__')
                                   and not isinstance(v, np.ndarray) else _dval(v))
                                  for k, v in sorted(x.items(), key=lambda kv: str(kv[0])))
     return _val(x) if not hasattr(x, '__dict__') or isinstance(x, np.ndarray) else ('obj', type(x).__name__)
